@@ -239,6 +239,7 @@ def harness(sub, cases, env=None, timeout=900, args=()):
     exe = os.path.join(BUILD, "bin", "dverif")
     data = "".join(json.dumps(c) + "\n" for c in cases).encode()
     e = dict(os.environ)
+    e["TMPDIR"] = scratch()      # whatever the harness creates with os.MkdirTemp("") goes away with the check's scratch directory
     if env:
         e.update(env)
     p = subprocess.run([exe, sub] + list(args), input=data, stdout=subprocess.PIPE, stderr=subprocess.PIPE,
